@@ -9,6 +9,7 @@ import (
 	"hash/crc32"
 	"os"
 	"path/filepath"
+	"runtime"
 	"sort"
 	"strings"
 
@@ -107,6 +108,23 @@ func (f FileSpec) Content(S int) []byte {
 				copy(b[o+S:], tw)
 			}
 		}
+	case "crczero":
+		// slices whose CRC-32 takes the extreme values: every third full slice has CRC-32 0, the one after it 0xFFFFFFFF (needs S >= 8)
+		for i := range b {
+			b[i] = byte(xs(&s) >> 7)
+		}
+		if S >= 8 {
+			for k, o := 0, 0; o+S <= len(b); k, o = k+1, o+S {
+				switch k % 3 {
+				case 0:
+					ForgeCRC(b[o:o+S], 0)
+				case 1:
+					ForgeCRC(b[o:o+S], 0xFFFFFFFF)
+				}
+			}
+		}
+	case "zeros":
+		// all bytes zero: every full slice is the same slice
 	case "share16k":
 		// the first 16 KiB depend only on Seed%3 (shared between files), the tail on the whole seed
 		ps := uint64(f.Seed%3) + 1234567
@@ -254,25 +272,26 @@ func (d Damage) Apply(names []string, state map[string][]byte) {
 
 // Case is a PAR2 scenario.
 type Case struct {
-	Files       []FileSpec `json:"files"`
-	Slice       int        `json:"slice"`
-	NRec        int        `json:"nrec"`
-	GCreate     int        `json:"g_create"`
-	GRepair     int        `json:"g_repair"`
-	DoubleCheck bool       `json:"double_check"`
-	Damage      []Damage   `json:"damage"`
-	DelVolumes  []int      `json:"del_volumes,omitempty"` // indices into the sorted list of recovery files
-	Bystanders  bool       `json:"bystanders,omitempty"`
-	Index       string     `json:"index,omitempty"`       // index file name, default "set.par2"
-	ForeignVol  bool       `json:"foreign_vol,omitempty"` // a volume of another recovery set named <base>.zforeign.par2
-	DupVol      bool       `json:"dup_vol,omitempty"`     // a copy of the first recovery file named <base>.dup.par2
-	CorruptVol  int        `json:"corrupt_vol,omitempty"` // 1+index of a recovery file in which one byte is flipped (0 = none)
+	Files        []FileSpec `json:"files"`
+	Slice        int        `json:"slice"`
+	NRec         int        `json:"nrec"`
+	GCreate      int        `json:"g_create"`
+	GRepair      int        `json:"g_repair"`
+	DoubleCheck  bool       `json:"double_check"`
+	Damage       []Damage   `json:"damage"`
+	DelVolumes   []int      `json:"del_volumes,omitempty"` // indices into the sorted list of recovery files
+	Bystanders   bool       `json:"bystanders,omitempty"`
+	Index        string     `json:"index,omitempty"`          // index file name, default "set.par2"
+	ForeignVol   bool       `json:"foreign_vol,omitempty"`    // a volume of another recovery set named <base>.zforeign.par2
+	DupVol       bool       `json:"dup_vol,omitempty"`        // a copy of the first recovery file named <base>.dup.par2
+	CorruptVol   int        `json:"corrupt_vol,omitempty"`    // 1+index of a recovery file in which one byte is flipped (0 = none)
 	KeepVolsWith []int      `json:"keep_vols_with,omitempty"` // if set: every recovery file that holds none of these exponents is deleted
-	SymlinkVols bool       `json:"symlink_vols,omitempty"`  // the recovery files are moved to a store directory and symlinked back
-	DirName     string     `json:"dir_name,omitempty"`     // name of the directory that holds the set (default "w")
-	RmDirOf     int        `json:"rmdir_of,omitempty"`     // 1+index of a protected file whose sub-directory is removed altogether after the damage (its rewrite must fail)
-	StaleNRec   int        `json:"stale_nrec,omitempty"`   // Create is first run with this many blocks (same set ID), leaving stale, partly overlapping volumes behind
-	SiblingVols bool       `json:"sibling_vols,omitempty"` // recovery files replaced by those of a sibling set with the same set ID (same names, lengths, first 16 KiB; different tails)
+	SymlinkVols  bool       `json:"symlink_vols,omitempty"`   // the recovery files are moved to a store directory and symlinked back
+	DirName      string     `json:"dir_name,omitempty"`       // name of the directory that holds the set (default "w")
+	RmDirOf      int        `json:"rmdir_of,omitempty"`       // 1+index of a protected file whose sub-directory is removed altogether after the damage (its rewrite must fail)
+	StaleNRec    int        `json:"stale_nrec,omitempty"`     // Create is first run with this many blocks (same set ID), leaving stale, partly overlapping volumes behind
+	Procs        int        `json:"procs,omitempty"`          // GOMAXPROCS while the scenario runs (0 = unchanged); with GCreate/GRepair 0 the default goroutine count depends on it
+	SiblingVols  bool       `json:"sibling_vols,omitempty"`   // recovery files replaced by those of a sibling set with the same set ID (same names, lengths, first 16 KiB; different tails)
 }
 
 // Obs is everything observed when running a Case.
@@ -335,6 +354,9 @@ func BystanderFiles() map[string][]byte {
 // Run executes the scenario: create, damage, verify, repair. If skipRepair is set Repair is not run.
 func Run(c Case, skipRepair bool) *Obs {
 	o := &Obs{Originals: map[string][]byte{}, Outputs: map[string][]byte{}}
+	if c.Procs > 0 {
+		defer runtime.GOMAXPROCS(runtime.GOMAXPROCS(c.Procs))
+	}
 	o.Dir = run.Scratch("scen")
 	o.dirName = "w"
 	if c.DirName != "" {
@@ -660,7 +682,7 @@ func GenSize(t *rapid.T, S, maxBytes int) int {
 	return n
 }
 
-var kinds = []string{"random", "random", "random", "alpha", "repeat", "zerotail", "zeroshead", "slicezeros", "crctwin"}
+var kinds = []string{"random", "random", "random", "alpha", "repeat", "zerotail", "zeroshead", "slicezeros", "crctwin", "crczero"}
 
 // GenFiles draws a file set. maxSlices bounds the total number of slices.
 func GenFiles(t *rapid.T, S, maxFiles, maxBytes, maxSlices int) []FileSpec {
@@ -817,4 +839,8 @@ func genBoundaryOff(maxLen, S int) *rapid.Generator[int] {
 }
 
 // DirNames are directory names for the set directory, including names that contain the archive extensions.
+// IndexNames are index file names ("" = set.par2): spaces, glob metacharacters, inner dots and extensions, and base
+// names that start with a dot, are empty, or are a single dot.
+var IndexNames = []string{"", "", "", "", "my set.par2", "arch[1].par2", "x.y.par2", "q?.par2", "set.PAR2.par2", ".hidden.par2", ".par2", "..par2", "...par2"}
+
 var DirNames = []string{"", "", "", "arch.par2.d", "old.parity", "x.par", "my.par2", "set.par2.vol", "d.p01"}
